@@ -1853,6 +1853,14 @@ class Evaluator:
                 return recv
             return self._call_on(recv, f.attr, e, fr)
         callee = self.expr(f, fr)
+        if callee == T.ext('builtins.map') and len(e.args) == 2 and not e.keywords and not any(isinstance(a, ast.Starred) for a in e.args):
+            # map(f, it) is [f(x) for x in it] for everything this analysis observes (what is iterated, in which order)
+            tmp = '__map_item%d' % getattr(self, '_comp_depth', 0)
+            comp = ast.ListComp(elt=ast.Call(func=e.args[0], args=[ast.Name(id=tmp, ctx=ast.Load())], keywords=[]),
+                                generators=[ast.comprehension(target=ast.Name(id=tmp, ctx=ast.Store()), iter=e.args[1], ifs=[], is_async=0)])
+            ast.copy_location(comp, e)
+            ast.fix_missing_locations(comp)
+            return self._comp(comp, fr, 'list')
         args, kwargs = self._args(e, fr)
         if args is None:
             return T.opaque('star-args with symbolic value')
@@ -1920,7 +1928,8 @@ class Evaluator:
         if args is None:
             return T.opaque('star-args with symbolic value')
         target = self.getattr(recv, name, fr, e)
-        if T.tag(target) in ('bound', 'func', 'cls', 'ext'):
+        if T.tag(target) in ('bound', 'func', 'cls', 'ext') or T.is_op(target, 'WEAKREF') \
+                or (T.tag(target) == 'closure' and T.tag(recv) == 'obj'):
             return self.apply(target, args, kwargs, fr, e)
         # method of a builtin-typed value
         for a in list(args) + list(kwargs.values()):
@@ -2435,8 +2444,12 @@ def _fixed_items(t):
         r = range(*[x[1] for x in t[2:]])
         if len(r) <= UNROLL_BOUND:
             return [T.const(i) for i in r]
-    if T.is_op(t, 'ZIP') and all(_fixed_items(x) is not None for x in t[2:]):
-        return [T.tup(list(z)) for z in zip(*[_fixed_items(x) for x in t[2:]])]
+    if T.is_op(t, 'ZIP') and all(_fixed_items(x) is not None or T.is_op(x, 'REPEAT') for x in t[2:]) \
+            and any(not T.is_op(x, 'REPEAT') for x in t[2:]):
+        cols = [_fixed_items(x) for x in t[2:] if not T.is_op(x, 'REPEAT')]
+        n = min(len(c) for c in cols)
+        full = [([x[2]] * n if T.is_op(x, 'REPEAT') else _fixed_items(x)) for x in t[2:]]
+        return [T.tup(list(z)) for z in zip(*full)]
     if T.is_op(t, 'ENUMERATE') and _fixed_items(t[2]) is not None:
         start = 0
         if len(t) > 3:
